@@ -22,9 +22,9 @@ theorem feasAt_some (tol r : K) : feasAt (some tol) r = true ↔ (-1 ≤ r ∧ r
 theorem keepFeas_ratio (P : Params K) (lineW tol : K) (it : Item K) (W Y Z aw ay az : K)
     (hinf : 0 < P.infinity) (htol : tol < P.infinity) (hlw : 0 < lineW) :
     keepFeas tol (ratioOf lineW (if it.ty = Ty.penalty then W - aw + it.width else W - aw) (Y - ay) (Z - az)) =
-    keepFeas tol (adjRatio P lineW it W Y Z aw ay az) := by
-  unfold ratioOf adjRatio
-  simp only [k0, k1, beq_iff_eq]
+    keepFeas tol (adjRatio0 P lineW it W Y Z aw ay az) := by
+  unfold ratioOf adjRatio0 ratioCore lineLen
+  simp only [k0, k1, beq_iff_eq, id]
   generalize (if it.ty = Ty.penalty then W - aw + it.width else W - aw) = L
   by_cases h1 : L < lineW
   · rw [if_pos h1, if_pos h1]
@@ -139,7 +139,7 @@ theorem step_equiv (P : Params K) (items : List (Item K)) (lineW tol : K) (hwf :
             (afterSums P items prev).1 (afterSums P items prev).2.1 (afterSums P items prev).2.2) := by
         unfold lineRatio
         simp only
-        rw [lineNat_eq P items prev b it hit hs]
+        rw [lineNat_eq P items prev b it hit hs, hwf.snap prev b it hit (fun a ha => legalAt_lt (hprev a ha).2)]
         exact keepFeas_ratio P lineW tol it _ _ _ _ _ _ hwf.inf htol hwf.lw
       rw [this]
   · rw [if_neg hleg, if_neg hleg]
